@@ -13,6 +13,7 @@ def harnesses(tier):
             {'name': 'reparent-N4-detached', 'fn': graph.h_step,
              'cfg': {'prop': 'C05', 'N': 4, 'nW': 0, 'seqlen': 1, 'links': False, 'ops': ['set_parent', 'ch_append', 'ch_insert']}},
             {'name': 'lookup-N4', 'fn': graph.h_lookup, 'cfg': {'N': 4, 'nW': 1}},
+            {'name': 'lookup-mixed-types-N3', 'fn': graph.h_lookup_mixed, 'cfg': {'N': 3}},
         ]
     return [
         {'name': 'step-N3-W2-all', 'fn': graph.h_step,
@@ -20,4 +21,5 @@ def harnesses(tier):
         {'name': 'attach-N4-W1', 'fn': graph.h_step,
          'cfg': {'prop': 'C05', 'N': 4, 'nW': 1, 'seqlen': 1, 'ops': graph.ATTACH_OPS}},
         {'name': 'lookup-N5', 'fn': graph.h_lookup, 'cfg': {'N': 5, 'nW': 1}},
+        {'name': 'lookup-mixed-types-N4', 'fn': graph.h_lookup_mixed, 'cfg': {'N': 4, 'range': (0, 3)}},
     ]
